@@ -33,6 +33,14 @@ def parseTree (s : String) : FS String :=
     | [p, "l"] => some (splitPath p, Node.file "symlink")
     | _ => none
 
+/-- The abstract file system has no symbolic links.  The one place where the checks put one is the target path
+    itself: `Path::exists` follows it (true for a link to a directory) and `remove_dir_all` on a symbolic link
+    unlinks the link WITHOUT following it — for the save this is exactly a directory without entries at the target.
+    (The snapshot does not descend through the link; what is behind it is outside the target and covered by the
+    frame rule.) -/
+def preForModel (t : APath) (pre : FS String) : FS String :=
+  pre.map fun e => if e.1 == t && e.2 == Node.file "symlink" then (e.1, Node.dir) else e
+
 def parseCell (s : String) : Cell String :=
   if s = "n" then .notLoaded else if s = "e" then .error else .loaded (s.drop 1).toString
 
